@@ -1,3 +1,4 @@
+import BobModel.Generated.ConstsC20
 /-
 Model of the Jenkins job graph calculation of pym/bob/cmds/jenkins/jenkins.py:
 
@@ -202,7 +203,8 @@ def commonPrefix : List Str → List Str → List Str
 def longestPrefix (g : Graph) : List Nat → Str
   | [] => []
   | [v] => g.pkgName v
-  | v :: vs => joinWith '-' (vs.foldl (fun acc w => commonPrefix acc (splitOn '-' (g.pkgName w))) (splitOn '-' (g.pkgName v)))
+  | v :: vs => joinWith Consts.C20.sepChar
+      (vs.foldl (fun acc w => commonPrefix acc (splitOn Consts.C20.sepChar (g.pkgName w))) (splitOn Consts.C20.sepChar (g.pkgName v)))
 
 def finalNames (g : Graph) (s : St) : NameMap :=
   (isort keyLe s.names).foldl (fun fin p =>
@@ -218,8 +220,8 @@ def decAux : Nat → Nat → Str → Str
 /-- decimal representation -/
 def dec (n : Nat) : Str := decAux (n + 1) n []
 
-/-- `"{}-{}".format(name, i+1)` -/
-def numbered (name : Str) (i : Nat) : Str := name ++ '-' :: dec (i + 1)
+/-- `"{}-{}".format(name, i+1)` (separator and offset from the source) -/
+def numbered (name : Str) (i : Nat) : Str := name ++ Consts.C20.sepChar :: dec (i + Consts.C20.numberOffset)
 
 abbrev PkgNames := Nat → Option Str
 
@@ -248,16 +250,19 @@ def sanitize (g : Graph) (n : Nat) (iso : Str → Bool) (roots : List Nat) : Pkg
 
 /-! ### display / internal names -/
 
+/-- the character class of the regular expression of `JobNameCalculator` (extracted from the source) -/
 def isNameChar (c : Char) : Bool :=
-  let k := c.toNat
-  (48 ≤ k && k ≤ 57) || (65 ≤ k && k ≤ 90) || (97 ≤ k && k ≤ 122) || k = 45 || k = 95
+  Consts.C20.keepRanges.any (fun r => r.1 ≤ c.toNat && c.toNat ≤ r.2)
 
 def lowerChar (c : Char) : Char :=
   let k := c.toNat
   if 65 ≤ k && k ≤ 90 then Char.ofNat (k + 32) else c
 
 /-- `re.compile(r'[^a-zA-Z0-9-_]').sub('_', name).lower()` -/
-def foldName (s : Str) : Str := s.map (fun c => if isNameChar c then lowerChar c else '_')
+def foldName (s : Str) : Str :=
+  s.map (fun c =>
+    let c' := if isNameChar c then c else Consts.C20.replChar
+    if Consts.C20.lowerCase then lowerChar c' else c')
 
 def displayName (pfx : Str) (pn : PkgNames) (v : Nat) : Option Str := (pn v).map (pfx ++ ·)
 
